@@ -975,9 +975,6 @@ package httpserver
 //@ func parseSyslogAddress
 //@ extern invoke:(net/http.ResponseWriter).Header
 //@   ensures result != nil
-//@ func (*ResponseWriterWrapper).Header
-//@   requires rww != nil
-//@   ensures result != nil
 //@ func (*ResponseBuffer).CopyHeader
 //@   requires rb != nil && rb.ResponseWriterWrapper != nil
 //@   modifies MV:map[string][]string, MD:map[string][]string
